@@ -26,14 +26,12 @@ Definition m_transpose_sl (c : schunk) : res lsarr :=
   match sfields c with
   | [] => Err                                             (* array.field(0) raises *)
   | f0 :: _ =>
-      let kids := map (fun f => (fname f, fty f, child (farr f))) (sc_flatten c) in
-      (* StructArray.from_arrays needs children of equal length *)
-      if all_equal_nat (map (fun k => length (snd k)) kids)
-      then Ok {| ls_offs := offs (farr f0);
-                 ls_valid := repeat true (length (offs (farr f0)) - 1);   (* no mask passed *)
-                 ls_svalid := repeat true (length (child (farr f0)));
-                 ls_children := kids |}
-      else Err
+      (* every value buffer is cut at the last offset of the first field's window *)
+      let e := last (offs (farr f0)) 0 in
+      Ok {| ls_offs := offs (farr f0);
+            ls_valid := repeat true (length (offs (farr f0)) - 1);   (* no mask passed *)
+            ls_svalid := repeat true e;
+            ls_children := map (fun f => (fname f, fty f, firstn e (child (farr f)))) (sc_flatten c) |}
   end.
 
 (* python view of a list-struct array: per row, optional, per field the values of the row *)
